@@ -141,6 +141,7 @@ def trusted_scan(text, unit):
     marker = text.find('// ---- types (verbatim from the expansion)')
     hits_pre = TRUST_RE.findall(text[:marker])
     rest = text[marker:]
+    rest = re.sub(r'#\[verifier::external_body\] // ASSUMED-CONTRACT', '', rest)
     bad = [m.group(0) for m in TRUST_RE.finditer(rest)]
     return len(hits_pre), bad
 
